@@ -54,7 +54,7 @@ def gibbs_options(genotype_alleles: A[iN, 1], variable_allele: int, haplotypes: 
     requires(0 <= variable_allele, variable_allele < P, 0 <= inbreeding, inbreeding < 1)
     requires(reads.shape[1] == haplotypes.shape[1])
     requires(implies(read_counts is not None, len(read_counts) == len(reads) and forall(0, len(reads), lambda r: read_counts[r] >= 1)))
-    requires(VALIDA(genotype_alleles, P, U), CALLOK(reads, haplotypes, U, haplotypes.shape[1], reads.shape[2]))
+    requires(VALIDA(genotype_alleles, P, U), CALLOK(reads, haplotypes, U, haplotypes.shape[1], reads.shape[2], len(reads)))
     requires(implies(frequencies is not None, len(frequencies) == U and forall(0, U, lambda a: finite(frequencies[a]) and frequencies[a] >= 0) and FSUM(frequencies, 0, U) > 0))
     # proved domain: with inbreeding every allele has positive prior frequency (lgamma(0) = +inf is not modelled)
     requires(implies(frequencies is not None and inbreeding > 0, forall(0, U, lambda a: frequencies[a] > 0)))
@@ -129,7 +129,7 @@ def mh_options(genotype_alleles: A[iN, 1], variable_allele: int, haplotypes: A[i
     requires(0 <= variable_allele, variable_allele < P, 0 <= inbreeding, inbreeding < 1)
     requires(reads.shape[1] == haplotypes.shape[1])
     requires(implies(read_counts is not None, len(read_counts) == len(reads) and forall(0, len(reads), lambda r: read_counts[r] >= 1)))
-    requires(VALIDA(genotype_alleles, P, U), CALLOK(reads, haplotypes, U, haplotypes.shape[1], reads.shape[2]))
+    requires(VALIDA(genotype_alleles, P, U), CALLOK(reads, haplotypes, U, haplotypes.shape[1], reads.shape[2], len(reads)))
     # proved domain: every allele has positive prior frequency (log 0 / lgamma(0) are infinite)
     requires(implies(frequencies is not None, len(frequencies) == U and forall(0, U, lambda a: finite(frequencies[a]) and frequencies[a] > 0)))
     requires(implies(llk_cache is not None, cwr(U, P) < 2 ** 53 and DCOH(llk_cache, reads, CN, haplotypes, P, NN, len(reads), U)))
@@ -206,7 +206,7 @@ def compound_step(genotype_alleles: A[iN, 1], haplotypes: A[i1, 2], reads: A[f8,
     requires(step_type == 0 or step_type == 1, implies(step_type == 1, U >= 2))
     requires(U >= 1, U <= 127, P >= 1, P <= 127, 0 <= inbreeding, inbreeding < 1, reads.shape[1] == haplotypes.shape[1])
     requires(implies(read_counts is not None, len(read_counts) == len(reads) and forall(0, len(reads), lambda r: read_counts[r] >= 1)))
-    requires(VALIDA(genotype_alleles, P, U), CALLOK(reads, haplotypes, U, NN, reads.shape[2]))
+    requires(VALIDA(genotype_alleles, P, U), CALLOK(reads, haplotypes, U, NN, reads.shape[2], len(reads)))
     requires(implies(frequencies is not None, len(frequencies) == U and forall(0, U, lambda a: finite(frequencies[a]) and frequencies[a] > 0)))
     requires(implies(llk_cache is not None, cwr(U, P) < 2 ** 53 and DCOH(llk_cache, reads, CN, haplotypes, P, NN, len(reads), U)))
     requires(POSA(reads, CN, haplotypes, P, NN, len(reads), U))
@@ -250,7 +250,7 @@ def mcmc_sampler(genotype_alleles: A[iN, 1], haplotypes: A[i1, 2], reads: A[f8, 
     requires(step_type == 0 or step_type == 1, implies(step_type == 1, U >= 2), n_steps >= 0, n_steps <= 2 ** 40)
     requires(U >= 1, U <= 127, P >= 1, P <= 127, 0 <= inbreeding, inbreeding < 1, reads.shape[1] == haplotypes.shape[1])
     requires(implies(read_counts is not None, len(read_counts) == len(reads) and forall(0, len(reads), lambda r: read_counts[r] >= 1)))
-    requires(VALIDA(genotype_alleles, P, U), CALLOK(reads, haplotypes, U, NN, reads.shape[2]))
+    requires(VALIDA(genotype_alleles, P, U), CALLOK(reads, haplotypes, U, NN, reads.shape[2], len(reads)))
     requires(implies(frequencies is not None, len(frequencies) == U and forall(0, U, lambda a: finite(frequencies[a]) and frequencies[a] > 0)))
     requires(implies(cache, cwr(U, P) < 2 ** 53))
     requires(POSA(reads, CN, haplotypes, P, NN, len(reads), U))
